@@ -508,6 +508,11 @@ def _as_ifexp(s, nxt):
             return []
         b = c[0][0]
 
+    if not s.orelse and isinstance(a, ast.Assign) and len(a.targets) == 1 and isinstance(a.targets[0], ast.Name) and isinstance(s.test, ast.UnaryOp) and isinstance(s.test.op, ast.Not) \
+            and isinstance(s.test.operand, ast.Name) and s.test.operand.id == a.targets[0].id:
+        # `if not X: X = D`  ==  `X = X or D`
+        return [(ast.copy_location(ast.Assign(targets=[a.targets[0]], value=ast.copy_location(ast.BoolOp(op=ast.Or(), values=[ast.copy_location(ast.Name(id=a.targets[0].id, ctx=ast.Load()), a), a.value]), a)), s), False)]
+
     def both(mk, va, vb):
         pos = ast.copy_location(ast.IfExp(test=s.test, body=va, orelse=vb), s)
         neg = ast.copy_location(ast.IfExp(test=ast.fix_missing_locations(ast.copy_location(negate(copy.deepcopy(s.test)), s.test)), body=vb, orelse=va), s)
@@ -1091,8 +1096,29 @@ def inline_new_constants(trees, stats):
                     stats.append((key, 'inlined new module constant(s) %s' % sorted(env)))
 
 
+def strip_annotations_and_super(trees):
+    """annotations have no effect on what a function computes; `super()` inside a method of class C with first parameter s is super(C, s)"""
+    for tree in trees.values():
+        for n in ast.walk(tree):
+            if isinstance(n, (ast.FunctionDef, ast.AsyncFunctionDef)):
+                n.returns = None
+                a = n.args
+                for x in a.posonlyargs + a.args + a.kwonlyargs + [y for y in (a.vararg, a.kwarg) if y]:
+                    x.annotation = None
+            elif isinstance(n, ast.AnnAssign) and n.value is not None and isinstance(n.target, ast.Name):
+                pass
+        for c in [n for n in ast.walk(tree) if isinstance(n, ast.ClassDef)]:
+            for m in c.body:
+                if isinstance(m, (ast.FunctionDef, ast.AsyncFunctionDef)) and m.args.args:
+                    first = m.args.args[0].arg
+                    for call in ast.walk(m):
+                        if isinstance(call, ast.Call) and isinstance(call.func, ast.Name) and call.func.id == 'super' and not call.args and not call.keywords:
+                            call.args = [ast.copy_location(ast.Name(id=c.name, ctx=ast.Load()), call), ast.copy_location(ast.Name(id=first, ctx=ast.Load()), call)]
+
+
 def normalise_repo(trees, use_reference=True, stats=None):
     collect_sigs(trees)
+    strip_annotations_and_super(trees)
     for tree in trees.values():
         for n in ast.walk(tree):
             if isinstance(n, (ast.FunctionDef, ast.AsyncFunctionDef)):
